@@ -225,8 +225,45 @@ def naive(repo, chk):
     chk.expect(bool(mseed), 'C19.7d', 'R10', m.relpath, ast.unparse(mseed[0]) if mseed else 'np.random.seed(<const>)', 'the naive generator is seeded with a constant at import', 'the naive generator module must seed NumPy with a constant')
     # CSV emission
     tg = repo.func(TG, 'outrank_task_generate_data_set')
-    txt = ast.unparse(tg.node)
-    ok_c = "dfx.columns = [f'f{x}' for x in range(dfx.shape[1])]" in txt and "dfx['label'] = target" in txt and 'index=False' in txt and 'data.csv' in txt
+    # path evaluation of the task for the naive generator: the frame that is written, its column labels and the label column
+    from ..match import run_paths
+    from ..terms import pattern, unify
+    a0 = tg.params[0]
+    tpaths = run_paths(tg, lambda e: isinstance(e, ast.Attribute) and e.attr == 'generator_type', 'naive', max_forks=3)
+    ok_c, c_unsure = False, None
+
+    def cols_ok(ct):
+        # [f'f{x}' for x in range(<number of columns of the sample / the frame>)]
+        try:
+            rng = ct[2][0][0]
+            return ct[0] == 'listcomp' and ct[1] == ('fstr', (('str', 'f'), ('fmt', ('cvar', 0, 0)))) and len(ct[2]) == 1 and not ct[2][0][1] and rng[0] == 'call' and rng[1] == ('name', 'range') and len(rng[2]) == 1 \
+                and rng[2][0][0] == 'sub' and rng[2][0][2] == ('num', 1) and rng[2][0][1][0] == 'attr' and rng[2][0][1][2] == 'shape'
+        except (IndexError, TypeError):
+            return False
+    for assume, res in (tpaths or []):
+        if res.unknown is not None:
+            c_unsure = res.unknown
+            continue
+        wr = [c for c in res.calls if isinstance(c['call'].func, ast.Attribute) and c['call'].func.attr == 'to_csv' and 'data.csv' in ast.unparse(c['call'])]
+        if not wr:
+            continue
+        call = wr[0]['call']
+        idx_false = any(k.arg == 'index' and isinstance(k.value, ast.Constant) and k.value.value is False for k in call.keywords)
+        # the receiver keeps its name when the frame was written to afterwards (frame['label'] = ...): look at how that name was built
+        recv_node = wr[0]['node'].value.func.value
+        frame_name = recv_node.id if isinstance(recv_node, ast.Name) else None
+        defs = [n for n in own_nodes(tg.node) if isinstance(n, ast.Assign) and isinstance(n.targets[0], ast.Name) and n.targets[0].id == frame_name]
+        gen = term_of(tg, ast.parse(f'{GN}.generate_random_matrix({a0}.num_synthetic_features, {a0}.num_synthetic_rows)', mode='eval').body, inline=False)
+        S, T = ('sub', gen, ('num', 0)), ('sub', gen, ('num', 1))
+        ft = term_of(tg, defs[0].value, inline=True) if len(defs) == 1 else None
+        plain_ctor = ft is not None and unify(pattern(tg.module, 'pandas.DataFrame(SAMPLE)', ['SAMPLE']), ft) == {'SAMPLE': S}
+        bb = unify(pattern(tg.module, 'pandas.DataFrame(SAMPLE, columns=COLS)', ['SAMPLE', 'COLS']), ft) if ft is not None else None
+        labelled_ctor = bb is not None and bb['SAMPLE'] == S and cols_ok(bb['COLS'])
+        relabel = [n for n in own_nodes(tg.node) if isinstance(n, ast.Assign) and isinstance(n.targets[0], ast.Attribute) and n.targets[0].attr == 'columns' and isinstance(n.targets[0].value, ast.Name) and n.targets[0].value.id == frame_name]
+        relabel_ok = len(relabel) == 1 and cols_ok(term_of(tg, relabel[0].value, inline=False))
+        lab = [u for u in res.updates if u['kind'] == 'store1' and isinstance(u['key'], ast.Constant) and u['key'].value == 'label']
+        lab_ok = len(lab) == 1 and term_of(tg, lab[0]['value'], inline=False) == T
+        ok_c = idx_false and lab_ok and (labelled_ctor or (plain_ctor and relabel_ok))
     cs = [c for c in calls(tg) if tg.module.dotted(c.func) == f'{GN}.generate_random_matrix']
     ok_a = len(cs) == 1 and [ast.unparse(a) for a in cs[0].args] == [f'{tg.params[0]}.num_synthetic_features', f'{tg.params[0]}.num_synthetic_rows']
     chk.expect(ok_c and ok_a, 'C19.7e', 'R15', tg.site(), "columns f0..f{n-1}, 'label'; to_csv(data.csv, index=False); generate_random_matrix(num_synthetic_features, num_synthetic_rows)", 'the CSV holds the sample under f0.. and the target under label, without an index column',
